@@ -256,11 +256,15 @@ def h_concurrent_reader(eng, op="repack", two=False, kmax=140, k2max=40, first=0
         r.close()
         r = Repo(d)
         reader = Repo(d)
-        # warm: 0 cold reader, 1 pack list loaded, 2 one object already read
+        # warm: 0 cold reader, 1 pack list loaded, 2 one object already read, 3 membership of every object probed
         if warm >= 1:
             list(reader.object_store.packs)
         if warm == 2:
             reader.object_store.get_raw(want[0])
+        if warm == 3:
+            # membership probed only: every pack index is loaded, no pack data file has been opened yet
+            for s_ in want:
+                s_ in reader.object_store
         # first: 0 = the reader is preempted first, 1 = the maintenance actor
         k1 = eng.choice("preempt_first_at", kmax)
         if two:
@@ -336,6 +340,11 @@ def checks(tier):
                parts=[{"op": o, "first": f, "warm": w, "kmax": 64} for o in ops[:3] for f in (0, 1) for w in (0, 2)], encoded=enc,
                bounds=bound_1 % ("cold, or one object already read", "pack_loose_objects / repack / gc without grace"),
                outside="2 preemptions (thorough); alternates; several readers", assumptions=por, time_budget=2400, tiers=("quick",)),
+        KCheck("C10d.concurrent_reader_probed", h_concurrent_reader,
+               parts=[{"op": o, "first": f, "warm": 3, "kmax": 64} for o in ("repack", "gc0") for f in (0, 1)], encoded=enc,
+               bounds=bound_1 % ("that has probed `sha in store` for every object, so every pack index is loaded and no pack data "
+                                 "file is open", "repack / gc without grace"),
+               outside="2 preemptions; alternates; several readers", assumptions=por, time_budget=2400, tiers=q),
         KCheck("C10d.concurrent_reader_1t", h_concurrent_reader,
                parts=[{"op": o, "first": f, "warm": w, "kmax": 64} for o in ops for f in (0, 1) for w in (0, 1, 2)], encoded=enc,
                bounds=bound_1 % ("cold, pack list loaded, or one object already read", "pack_loose_objects / repack / gc without "
